@@ -4,6 +4,28 @@ import json, os
 HERE = os.path.dirname(os.path.dirname(os.path.abspath(__file__)))
 
 CLAIMED = {
+    "C01": dict(
+        technique="type/alias facts + MIR decision extraction of the number-admission paths + who-may-call deny list + serializer effect order",
+        text="Decides structural necessary conditions only: sorted map type, Integer only via as_i64 -> js_int::Int::try_from, every other number "
+             "rejected, no float/saturating/pretty calls in canonical_json or ruma-signatures, Serialize emits the BTreeMap's own order entry by entry, "
+             "serde_json without arbitrary_precision. Byte-exact escaping/printing and parse-back equality are NOT decided (serde_json's behaviour).",
+        note="Trusted: serde_json compact output, String byte order = code-point order, rustc MIR.",
+        design="DESIGN.md §4 C01"),
+    "C02": dict(
+        technique="error-atomicity path rule (A7) + ordered-effect/provenance rules over MIR paths + quantifier (must-exhaust) rules",
+        text="Decides: no Err return of sign_json leaves removed entries out of the object; signed bytes = compact serialization after removing "
+             "exactly signatures+unsigned; placement under signatures[entity][key id], earlier entries kept, unsigned restored; verify_json/Ok only after "
+             "every entity verified, per entity >=1 verified and none failed, skip only for unparsable key id / unsupported algorithm; roles unswapped; "
+             "unpadded standard base64. Does NOT decide RFC 8032 conformance or unforgeability.",
+        note="Trusted: ed25519-dalek, base64, serde_json. One reviewed exception: serializer Err edge of sign_json is infeasible.",
+        design="DESIGN.md §4 C02"),
+    "C03": dict(
+        technique="const tables via rules() + decision-table extraction of the required-signer set vs spec model (exhaustive over 96 scenarios) + pipeline provenance",
+        text="Decides SignaturesRules/RedactionRules per version, the required-signer set under every combination of type/membership/third-party invite/"
+             "authorising user/flags, and the verify_event / hash_and_sign_event pipelines (redacted copy, all servers before Ok, hash status). "
+             "Behaviour under field mutation follows from C04/C05 tables plus cryptography and is not decided.",
+        note="Trusted: as C02/C04/C05. Known finding F10 recorded (authorising server demanded for non-join events).",
+        design="DESIGN.md §4 C03"),
     "C04": dict(
         technique="decision-table extraction from MIR + const-evaluated rule tables vs spec table (exhaustive)",
         text="Exhaustive over the finite table: for each of the 11 room versions (rules obtained through RoomVersionId::rules(), "
